@@ -144,6 +144,57 @@ func checkC05(c C05Case, st *evid.Stats) error {
 					}
 					return out
 				}
+				// Bundling mode: the same letter inside a bundle, after a declared flag letter, is the same
+				// abbreviation (`-xp` is `-x -p`): resolved when unique, rejected when ambiguous
+				if mode == ModeBundling && single && dash == "-" {
+					x := ""
+					for _, k := range keys {
+						if k != "-" && k != p && len([]rune(k)) == 1 && lv.Visible[k].Spec.Kind.IsFlag() {
+							x = k
+							break
+						}
+					}
+					if x != "" {
+						suffix := ""
+						if target != "" && !lv.Visible[target].Spec.Kind.IsFlag() {
+							suffix = "=" + valueFor(lv.Visible[target].Spec)
+						}
+						bundle := append(append([]string{}, c.Path...), "-"+x+p+suffix)
+						split := append(append([]string{}, c.Path...), "-"+x, "-"+p+suffix)
+						if target != "" && lv.Visible[target].Spec.Kind.IsMulti() {
+							for j := 1; j < lv.Visible[target].Spec.Min; j++ {
+								bundle = append(bundle, valueFor(lv.Visible[target].Spec))
+								split = append(split, valueFor(lv.Visible[target].Spec))
+							}
+						}
+						BB, SS := Run(c.Spec, bundle, RunOpts{}), Run(c.Spec, split, RunOpts{})
+						if BB.Panic != "" || SS.Panic != "" {
+							return failf("panic: %s%s", BB.Panic, SS.Panic)
+						}
+						switch {
+						case target != "":
+							st.Class("letter-inside-a-bundle:resolves")
+							if BB.ParseFailed != SS.ParseFailed {
+								return failf("letter %q (addresses %q among %v) inside the bundle %s: Parse failed=%v (%s), as separate tokens %s: failed=%v (%s)", p, target, keys, q(bundle), BB.ParseFailed, BB.ParseErr, q(split), SS.ParseFailed, SS.ParseErr)
+							}
+							if !BB.ParseFailed {
+								if d := optsDiff(SS.Opts, BB.Opts); d != "" {
+									return failf("letter %q (addresses %q among %v) behaves differently inside the bundle %s than as separate tokens %s: %s", p, target, keys, q(bundle), q(split), d)
+								}
+							}
+						case len(M) >= 2:
+							st.Class("letter-inside-a-bundle:ambiguous")
+							if !BB.ParseFailed {
+								return failf("letter %q matches %v at level %s and is not a name itself, yet inside the bundle %s it was accepted: Parse succeeded", p, M, lv.Path, q(bundle))
+							}
+							for _, cand := range M {
+								if !strings.Contains(BB.ParseErr, cand) {
+									return failf("ambiguity error %q for bundle %s does not list candidate %q of %v", BB.ParseErr, q(bundle), cand, M)
+								}
+							}
+						}
+					}
+				}
 				if target != "" {
 					o := lv.Visible[target].Spec
 					argvP := mk(p, o)
@@ -242,6 +293,26 @@ func checkC05(c C05Case, st *evid.Stats) error {
 					if d := optsDiff(base.Opts, B.Opts); d != "" {
 						return failf("ambiguous prefix %q changed option state: %s", p, d)
 					}
+					// the same ambiguous text with a value attached: still rejected, still all candidates
+					for _, av := range []string{"=val", "=7", "=true"} {
+						argvV := append(append([]string{}, c.Path...), argvP[len(c.Path)]+av)
+						V := Run(c.Spec, argvV, RunOpts{})
+						st.Class("ambiguous+attached-value")
+						if V.Panic != "" {
+							return failf("panic: %s", V.Panic)
+						}
+						if !V.ParseFailed {
+							return failf("prefix %q matches %v at level %s and is not a name itself, yet with an attached value Parse(%s) succeeded (silently resolved)", p, M, lv.Path, q(argvV))
+						}
+						for _, cand := range M {
+							if !strings.Contains(V.ParseErr, cand) {
+								return failf("ambiguity error %q for %s does not list candidate %q of %v", V.ParseErr, q(argvV), cand, M)
+							}
+						}
+						if d := optsDiff(base.Opts, V.Opts); d != "" {
+							return failf("ambiguous prefix %q with attached value changed option state: %s", p, d)
+						}
+					}
 					if len(c.Path) > 0 {
 						root := c.Spec.Levels()
 						if rk, _ := resolve(root, p); rk != "" && !(root.Visible[rk].Spec.Kind.IsMulti() && root.Visible[rk].Spec.Max > root.Visible[rk].Spec.Min) {
@@ -262,7 +333,7 @@ func checkC05(c C05Case, st *evid.Stats) error {
 }
 
 var propC05 = &Prop[C05Case]{ID: "C05", Sub: "abbrev",
-	Rule:  "rapid: definitions drawn from a prefix-rich name pool (families v/ve/ver/verb/verbose/version, single letters, multibyte, inherited options inside commands) x a command level; within each case EVERY prefix of EVERY visible name/alias is tried in every spelling the mode allows (exhaustive per case); evaluations = (prefix, spelling) pairs; non-trivial = unique proper prefix in a set with a nested-prefix pair, exact name that also prefixes others, or ambiguous prefix; distinct by (name set, prefix, spelling, mode)",
+	Rule:  "rapid: definitions drawn from a prefix-rich name pool (families v/ve/ver/verb/verbose/version, single letters, multibyte, inherited options inside commands) x a command level; within each case EVERY prefix of EVERY visible name/alias is tried in every spelling the mode allows (exhaustive per case), ambiguous prefixes also with an attached value, and in Bundling mode every one-letter prefix also as a letter inside a bundle behind a declared flag letter (compared with the separate-token spelling); evaluations = (prefix, spelling) pairs; non-trivial = unique proper prefix in a set with a nested-prefix pair, exact name that also prefixes others, or ambiguous prefix; distinct by (name set, prefix, spelling, mode)",
 	Gen:   genC05,
 	Check: checkC05,
 }
